@@ -130,6 +130,29 @@ theorem delay_passed_iff (now : Nat) (self : Height) (pt : Option Nat) (ph : Opt
   rw [← timeHalf, ← blockHalf]
   cases timeCheck now pt dt <;> simp
 
+/-- packet-related proofs respect the delays of the consensus state they are verified against: an
+    accepted proof at height `H` implies that both delays have passed since the client-store entries
+    (processed time / processed height) of `H` — a younger or older consensus state's entries do not help -/
+theorem packet_proof_respects_delay (base : Bool) (now : Nat) (self : Height) (pt : Option Nat) (ph : Option Height) (dt db : Nat)
+    (h : delayedProofAccepted base now self pt ph dt db = true) :
+    base = true ∧
+    (dt = 0 ∨ ∃ p, pt = some p ∧ p + dt ≤ now) ∧
+    (db = 0 ∨ ∃ q, ph = some q ∧ Height.lt self ⟨q.rev, UInt64.ofNat (q.h.toNat + db)⟩ = false) := by
+  unfold delayedProofAccepted at h
+  simp only [Bool.and_eq_true] at h
+  obtain ⟨hb, hd⟩ := h
+  have hok : verifyDelayPeriodPassed now self pt ph dt db = .ok := by
+    cases hv : verifyDelayPeriodPassed now self pt ph dt db <;> simp [hv] at hd
+    rfl
+  obtain ⟨h1, h2⟩ := (delay_passed_iff now self pt ph dt db).mp hok
+  refine ⟨hb, ?_, ?_⟩
+  · rcases h1 with h1 | ⟨p, hp, _, hle⟩
+    · exact Or.inl h1
+    · exact Or.inr ⟨p, hp, hle⟩
+  · rcases h2 with h2 | ⟨q, hq, _, hlt⟩
+    · exact Or.inl h2
+    · exact Or.inr ⟨q, hq, hlt⟩
+
 /-- non-vacuity / boundary: exactly at processed + delay the proof is accepted, one nanosecond or one
     block earlier it is not -/
 example : verifyDelayPeriodPassed 1500 ⟨1, 20⟩ (some 1000) (some ⟨1, 15⟩) 500 5 = .ok := by decide
